@@ -97,10 +97,12 @@ class ContextService(ServiceWithOperations):
                             context_state_containers_lookup[state.Handle] = state
                 context_state_containers = context_state_containers_lookup.values()
 
-        response = data_model.msg_types.GetContextStatesResponse()
-        response.ContextState.extend(context_state_containers)
-        response.set_mdib_version_group(self._mdib.mdib_version_group)
-        response_envelope = self._sdc_device.msg_factory.mk_reply_soap_message(request_data, response)
+            # version and content must be read in the same critical section. The states in the mdib are updated in
+            # place by later transactions, therefore the response is also created inside the critical section.
+            response = data_model.msg_types.GetContextStatesResponse()
+            response.ContextState.extend(context_state_containers)
+            response.set_mdib_version_group(self._mdib.mdib_version_group)
+            response_envelope = self._sdc_device.msg_factory.mk_reply_soap_message(request_data, response)
         return response_envelope
 
     def add_wsdl_port_type(self, parent_node):
